@@ -9,6 +9,7 @@ package main
 import (
 	"fmt"
 	"go/types"
+	"regexp"
 	"sort"
 	"strconv"
 	"strings"
@@ -150,6 +151,7 @@ func (m *ParseModel) consumed(st *State, by string) {
 	delete(st.Mon, "la")
 	delete(st.Mon, "notla")
 	delete(st.Mon, "atend")
+	delete(st.Mon, "peekname")
 	st.Mon["prev"] = by
 }
 
@@ -240,6 +242,12 @@ func (m *ParseModel) Call(mc *Machine, st *State, call ssa.CallInstruction, call
 		var outs []Outcome
 		canT := !(st.Mon["la"] != "" && st.Mon["la"] != n) && !inSet(st.Mon["notla"], n) && st.Mon["atend"] != "T"
 		canF := st.Mon["la"] != n
+		if n == "EOF" {
+			// check() answers false at the end of input whatever it is asked for (its body is verified separately), so
+			// check(EOF) is the constant false and tells nothing about the lookahead
+			e := m.ev(in, "check", []string{n}, "false")
+			return []Outcome{{Result: BoolV(false), Apply: func(s *State) { m.annotate(s, e); m.Emit(s, e) }}}, true
+		}
 		if canT {
 			e := m.ev(in, "check", []string{n}, "true")
 			outs = append(outs, Outcome{Result: BoolV(true), Apply: func(s *State) {
@@ -322,13 +330,26 @@ func (m *ParseModel) Call(mc *Machine, st *State, call ssa.CallInstruction, call
 	case "peek":
 		e := m.ev(in, "peek", nil, "")
 		e.KV["res"] = "peek" + valName
-		return []Outcome{{Result: Sym("peek" + valName), Apply: func(s *State) { m.annotate(s, e); m.Emit(s, e) }}}, true
+		return []Outcome{{Result: Sym("peek" + valName), Apply: func(s *State) { m.annotate(s, e); s.Mon["peekname"] = "peek" + valName; m.Emit(s, e) }}}, true
 	case "previous":
 		e := m.ev(in, "previous", nil, "")
 		e.KV["res"] = "prev(" + st.Mon["prev"] + ")" + valName
 		e.KV["how"] = st.Mon["prev"]
 		return []Outcome{{Result: Sym("prev(" + st.Mon["prev"] + ")" + valName), Apply: func(s *State) { m.annotate(s, e); m.Emit(s, e) }}}, true
 	case "advance":
+		if la := st.Mon["la"]; la != "" && la != "EOF" {
+			// the path knows which token is ahead (a check, or a table lookup on peek().Type, said so): this advance
+			// consumes exactly that token, like consume(la) that cannot fail
+			e := m.ev(in, "consume", []string{la}, "ok")
+			name := "tok" + valName
+			e.KV["res"] = name
+			return []Outcome{{Result: Sym(name), Apply: func(s *State) {
+				m.annotate(s, e)
+				m.consumed(s, "consume")
+				s.Facts["v:"+name+".Type"] = IntV(tokValue(m, la))
+				m.Emit(s, e)
+			}}}, true
+		}
 		e := m.ev(in, "advance", nil, "")
 		return []Outcome{{Result: Sym("adv" + valName), Apply: func(s *State) { m.annotate(s, e); m.consumed(s, "advance"); m.Emit(s, e) }}}, true
 	case "error":
@@ -389,6 +410,8 @@ func (m *ParseModel) Call(mc *Machine, st *State, call ssa.CallInstruction, call
 	return nil, false // helper of the parser that is not a grammar function: inline
 }
 
+var rePeekType = regexp.MustCompile(`^\((peek@[^ ]+)\.Type == (\d+)\)$`)
+
 func tokValue(m *ParseModel, name string) int64 {
 	for v, n := range m.tokNames {
 		if n == name {
@@ -401,7 +424,7 @@ func tokValue(m *ParseModel, name string) int64 {
 func (m *ParseModel) Instr(mc *Machine, st *State, in ssa.Instruction, ops []AV) {
 	switch x := in.(type) {
 	case *ssa.Alloc:
-		if nt := namedOf(x.Type()); nt != nil && nt.Obj().Pkg() != nil && nt.Obj().Pkg().Name() == "ast" && x.Heap {
+		if nt := namedOf(x.Type()); nt != nil && nt.Obj().Pkg() != nil && nt.Obj().Pkg().Name() == "ast" {
 			e := m.ev(in, "node", []string{nt.Obj().Name()}, mc.eval(st, st.Top(), x).String())
 			m.annotate(st, e)
 			m.Emit(st, e)
@@ -436,6 +459,28 @@ func (m *ParseModel) Instr(mc *Machine, st *State, in ssa.Instruction, ops []AV)
 			m.annotate(st, e)
 			m.Emit(st, e)
 		}
+	case *ssa.Lookup:
+		// a table indexed by the type of the lookahead token (peek().Type): a hit tells which token is ahead, a miss
+		// which ones are not
+		if len(ops) == 3 && ops[2].K == KSym && st.Mon["peekname"] != "" && ops[2].S == st.Mon["peekname"]+".Type" && ops[1].K == KInt {
+			n := m.tokName(ops[1])
+			st.Mon["la"] = n
+			st.Mon["atend"] = "F"
+			if n == "EOF" {
+				st.Mon["atend"] = "T"
+			}
+			e := m.ev(in, "check", []string{n}, "true")
+			m.annotate(st, e)
+			m.Emit(st, e)
+		} else if len(ops) == 2 && ops[1].K == KSym && st.Mon["peekname"] != "" && ops[1].S == st.Mon["peekname"]+".Type" {
+			if u, ok := x.X.(*ssa.UnOp); ok {
+				if g, ok := u.X.(*ssa.Global); ok {
+					for _, ent := range m.p.ConstMapKeys(g) {
+						st.Mon["notla"] = addSet(st.Mon["notla"], m.tokName(ent.K))
+					}
+				}
+			}
+		}
 	case *ssa.TypeAssert:
 	}
 }
@@ -447,6 +492,30 @@ func (m *ParseModel) Branch(mc *Machine, st *State, in *ssa.If, cond AV, taken b
 			subj := mc.eval(st, st.Top(), ta.X)
 			e := m.ev(in, "typetest", []string{subj.String(), typeStr(ta.AssertedType)}, fmt.Sprint(taken))
 			m.annotate(st, e)
+			m.Emit(st, e)
+			return
+		}
+	}
+	// a switch or comparison on the type of the lookahead token (peek().Type == T) is a check(T)
+	if cond.K == KSym {
+		if mm := rePeekType.FindStringSubmatch(cond.S); mm != nil && st.Mon["peekname"] == mm[1] {
+			t := taken
+			if cond.Neg {
+				t = !t
+			}
+			k, _ := strconv.ParseInt(mm[2], 10, 64)
+			n := m.tokName(IntV(k))
+			e := m.ev(in, "check", []string{n}, fmt.Sprint(t))
+			m.annotate(st, e)
+			if t {
+				st.Mon["la"] = n
+				st.Mon["atend"] = "F"
+				if n == "EOF" {
+					st.Mon["atend"] = "T"
+				}
+			} else {
+				st.Mon["notla"] = addSet(st.Mon["notla"], n)
+			}
 			m.Emit(st, e)
 			return
 		}
@@ -496,6 +565,7 @@ func (m *ParseModel) Return(mc *Machine, st *State, ret *ssa.Return, results []A
 func ExploreParseFn(p *Prog, fn *ssa.Function) (*ParseModel, *Machine) {
 	m := NewParseModel(p, fn)
 	mc := NewMachine(p, m)
+	mc.ForkTables = true
 	m.Attach(mc)
 	var params []AV
 	for _, prm := range fn.Params {
